@@ -45,9 +45,9 @@ var c04ModSeqs = func() [][]byte {
 	return out
 }()
 
-const c04Contexts = 10
+const c04Contexts = 11
 
-var c04CtxNames = [...]string{"top-level", "struct-field", "slice-element", "behind-pointer", "struct-in-slice", "slice-in-struct", "struct-field-between-catching-siblings", "field-of-a-go-struct-used-as-input", "field-of-a-typed-map-record", "field-of-an-item-of-a-typed-slice-default"}
+var c04CtxNames = [...]string{"top-level", "struct-field", "slice-element", "behind-pointer", "struct-in-slice", "slice-in-struct", "struct-field-between-catching-siblings", "field-of-a-go-struct-used-as-input", "field-of-a-typed-map-record", "field-of-an-item-of-a-typed-slice-default", "item-of-a-typed-slice-default"}
 
 func (c04) Info(t core.Tier) core.Info {
 	return core.Info{
@@ -258,6 +258,35 @@ func c04Wrap(cell *spec.Node, ctx int) (root *spec.Node, wrapData func(any) any,
 				item["F"] = p
 			}
 			sl.Mods = []spec.Mod{{Op: spec.MDefault, Val: obs.Make(sl.GoType(), []any{item}).Interface()}}
+			return true
+		}
+		wrapData = func(v any) any {
+			if _, miss := v.(missingKey); miss || !setDefault(v) {
+				return c04Skip{}
+			}
+			return map[string]any{"other": "o"}
+		}
+		wrapVal = func(v any) any {
+			if !setDefault(v) {
+				return c04Skip{}
+			}
+			return map[string]any{"L": []any{}, "Other": "o", "XUntouchedS": "sentinel-untouched"}
+		}
+		return
+	}
+	if ctx == 10 {
+		// the cell is the item schema of a slice whose Default is a typed slice holding the input as its only item; the slice itself is
+		// absent. The default's items are "tested like any other value" under the rules of the mode
+		sl := &spec.Node{Kind: spec.Slice, Elem: cell}
+		root = &spec.Node{Kind: spec.Struct, ExtraFields: extra, Fields: []spec.Field{{Key: "l", GoName: "L", Node: sl}, {Key: "other", GoName: "Other", Node: other()}}}
+		root.Number()
+		setDefault := func(v any) bool {
+			if cell.Kind == spec.Slice || cell.Kind == spec.Ptr || v == nil || reflect.TypeOf(v) != cell.GoType() {
+				return false
+			}
+			d := reflect.MakeSlice(sl.GoType(), 0, 2)
+			d = reflect.Append(d, reflect.ValueOf(v))
+			sl.Mods = []spec.Mod{{Op: spec.MDefault, Val: d.Interface()}}
 			return true
 		}
 		wrapData = func(v any) any {
